@@ -59,6 +59,7 @@ impl Writer {
         }
     }
 
+    #[cfg(windows)]
     fn is_tty(&self) -> bool {
         // 1.40 compat
         #[allow(clippy::match_like_matches_macro)]
@@ -193,7 +194,7 @@ impl ConsoleAppenderBuilder {
             },
         };
 
-        let do_write = writer.is_tty() || !self.tty_only;
+        let do_write = !self.tty_only || target_is_tty(self.target, &writer);
 
         ConsoleAppender {
             writer,
@@ -203,6 +204,22 @@ impl ConsoleAppenderBuilder {
             do_write,
         }
     }
+}
+
+/// Whether the target stream is a terminal. `Writer::Tty` cannot be used for this: it says whether
+/// color is in use, which NO_COLOR / CLICOLOR / CLICOLOR_FORCE decide independently of the terminal.
+#[cfg(not(windows))]
+fn target_is_tty(target: Target, _: &Writer) -> bool {
+    let fd = match target {
+        Target::Stdout => libc::STDOUT_FILENO,
+        Target::Stderr => libc::STDERR_FILENO,
+    };
+    unsafe { libc::isatty(fd) == 1 }
+}
+
+#[cfg(windows)]
+fn target_is_tty(_: Target, writer: &Writer) -> bool {
+    writer.is_tty()
 }
 
 /// The stream to log to.
